@@ -17,6 +17,9 @@ type PieceOfPathVariable struct {
 	// pathDirective the Path directive which defines this piece (nil for imitated).
 	pathDirective *directive.Directive
 
+	// used true if the piece has become a part of the path variables of an interaction.
+	used bool
+
 	// temp workaround. true means that this was not gathered from Path directive,
 	// but from URL or Method-directive, imitating real rawPathVariable
 	imitated bool
